@@ -933,7 +933,7 @@ func TestVerifC02(t *testing.T) {
 	defer out.Close()
 	r := verifkit.NewRand(verifkit.Seed())
 	e := &c02Env{out: out, r: r, signer: vKeys()[2]}
-	nWorlds := verifkit.N(6, 70)
+	nWorlds := verifkit.N(6, 120)
 	perWorld := verifkit.N(120, 200)
 	neutral := c02Opts{now: time.Date(2030, 1, 1, 0, 0, 0, 0, time.UTC)}
 	nCase := 0
